@@ -26,6 +26,7 @@ CHECKS["C03"] = dict(
     steps=[
         dict(name="exhaustive", run="^TestExhaustiveSequences$", quick=1, thorough=1),
         dict(name="histories", run="^TestConcurrentHistories$", quick=10000, thorough=1500000, shards_thorough=13),
+        dict(name="copy-during-settlement", run="^TestCopyDuringSettlement$", quick=3000, thorough=300000, shards_thorough=2),
         # zero-value messages with concurrent readers: the field read is racy by design, so no race detector here
         dict(name="zero-value-readers", run="^TestZeroValueConcurrentReaders$", quick=60, thorough=3000, shards_thorough=2, norace=True),
     ],
@@ -160,7 +161,8 @@ CHECKS["C07"] = dict(
     level_text="The complete table of (configuration, decorator depth, operation A parked at each of its hook points, operation B, consumer state) is enumerated (quick: one eighth chosen by seed; thorough: all entries over 16 shards); in every entry B is invoked while A is parked, then A is released and the Pub/Sub closed. Every call must return, every output channel must close, Publish/Subscribe must fail afterwards and no Pub/Sub goroutine may remain; random programs with a Close landing between generated Publish calls extend this beyond pairs.",
     level_note="Trusted: the hook controller (park/release), goroutine-dump based leak detection, 10 s liveness bounds re-confirmed by one re-run. Entries whose hook point is not reached run unforced and are counted as such. " + _GC_NOTE,
     steps=[dict(name="table", run="^TestPairwiseTable$", quick=1, thorough=1, shards_thorough=12),
-           dict(name="random", run="^TestRandomCloseCancel$", quick=200, thorough=100000, shards_thorough=4)],
+           dict(name="random", run="^TestRandomCloseCancel$", quick=200, thorough=100000, shards_thorough=3),
+           dict(name="close-burst", run="^TestConcurrentCloseBurst$", quick=60, thorough=6000)],
 )
 
 CHECKS["C06"] = dict(
@@ -169,7 +171,7 @@ CHECKS["C06"] = dict(
     level_text="Generated shutdown scenarios over handler sets, CloseTimeouts, caller counts, path points and release delays run against a real Router with scripted subscribers/publishers (and a GoChannel variant). Handler progress and settlement of every emitted message are sampled in the calling goroutine at the instant each Close call returns, at Run's return and after a 50 ms window, and compared with the graceful-close contract; time-outs must surface as an error in time.",
     level_note="Trusted: the hook controller, synchronous sampling in the caller goroutine, scripted Pub/Subs. The path points are those instrumented; schedules between un-instrumented instructions are reached only by noise. 10 s liveness bounds re-confirmed once.",
     steps=[dict(name="close", run="^TestGracefulClose$", quick=160, thorough=36000, shards_thorough=15),
-           dict(name="close-while-starting", run="^TestCloseWhileStarting$", quick=100, thorough=20000)],
+           dict(name="close-while-starting", run="^(TestCloseWhileStarting|TestCloseBeforeRun)$", quick=100, thorough=20000)],
 )
 
 CHECKS["C10"] = dict(
